@@ -853,7 +853,7 @@ func (c *d6Ctx) newStateLeaves() map[string]bool {
 // pathLeaves collects the non-constant values a path expression is built from: field loads (by
 // field), calls other than the string builders (by identity), unbound parameters.
 func pathLeaves(v ssa.Value, depth int, out map[string]bool) {
-	if depth > 10 || v == nil {
+	if depth > 24 || v == nil {
 		return
 	}
 	switch x := v.(type) {
@@ -867,6 +867,20 @@ func pathLeaves(v ssa.Value, depth int, out map[string]bool) {
 		}
 	case *ssa.Call:
 		f := x.Call.StaticCallee()
+		if f != nil && world.InModule(f) && f.Blocks != nil && isStringy(x.Type()) && depth < 20 {
+			// path helper of the module: the leaves of its returned expression for this call's arguments
+			if len(f.Params) == len(x.Call.Args) {
+				for i, p := range f.Params {
+					constParamBind[p] = []ssa.Value{x.Call.Args[i]}
+				}
+			}
+			for _, ret := range world.Returns(f) {
+				for _, rv := range world.RetVals(ret) {
+					pathLeaves(rv, depth+1, out)
+				}
+			}
+			return
+		}
 		if f != nil {
 			switch n := f.String(); {
 			case n == "path.Join", n == "path/filepath.Join", n == "fmt.Sprintf", n == "fmt.Sprint", strings.HasPrefix(n, "strconv.Format"), n == "strconv.Itoa":
